@@ -120,7 +120,7 @@ class Interp:
                 v = self.eval(e.value, fr)
                 if hasattr(v, "pyvc_star"):
                     v = v.pyvc_star()
-                if isinstance(v, (SList, SListView)):
+                if isinstance(v, (SList, SListView)) or type(v).__name__ == "SymComp":
                     out.append(_StarArgs(v))     # a symbolic sequence spliced into a call: the callee contract sees the marker
                     continue
                 if not isinstance(v, (list, tuple)):
@@ -646,6 +646,29 @@ class Interp:
             self.exec_block(s.body, fr)
         else:
             self.exec_block(s.orelse, fr)
+
+    def s_Match(self, s, fr):
+        """match with class patterns without sub-patterns, value patterns and the wildcard (the subset PyTeal uses for dispatch)"""
+        subj = self.eval(s.subject, fr)
+        for case in s.cases:
+            if case.guard is not None:
+                raise Unsupported("match guard")
+            pat = case.pattern
+            alts = pat.patterns if isinstance(pat, ast.MatchOr) else [pat]
+            conds = []
+            for p in alts:
+                if isinstance(p, ast.MatchClass) and not p.patterns and not p.kwd_patterns:
+                    conds.append(zbool(self.engine.isinstance(self, subj, self.eval(p.cls, fr))))
+                elif isinstance(p, ast.MatchValue):
+                    conds.append(zbool(self.equals(subj, self.eval(p.value, fr))))
+                elif isinstance(p, ast.MatchAs) and p.pattern is None and p.name is None:
+                    conds.append(True)
+                else:
+                    raise Unsupported(f"match pattern {type(p).__name__} at line {p.lineno}")
+            if self.ctx.branch(zor(*conds)):
+                self.exec_block(case.body, fr)
+                return
+        return
 
     def s_FunctionDef(self, s, fr):
         fr.locals[s.name] = Closure(s, fr, fr.fn_name + ".<locals>." + s.name)
